@@ -1030,6 +1030,11 @@ mod real {
         last_sub: HashMap<u64, bool>,
         /// mutual exclusion: lock -> holders (tid, shared)
         holders: HashMap<Lk, Vec<(u64, bool)>>,
+        /// several managers alive at once (lock ids are per manager but carry no manager identity)
+        multi_mgr: bool,
+        /// library threads (gc thread, pool workers) of managers of EARLIER cases: they may still
+        /// be on their way out and log events under lock ids that the current case's manager reuses
+        stale: std::collections::HashSet<u64>,
         cov: HashMap<u64, CovTh>,
         names: HashMap<u64, String>,
         events_case: u64,
@@ -1103,6 +1108,10 @@ mod real {
             let (nb, nl) = (self.rp.nb, self.rp.nl);
             for e in evs {
                 let tid = e.thread as u64;
+                if self.stale.contains(&tid) {
+                    ctx.count("events.from-threads-of-earlier-managers (ignored)");
+                    continue;
+                }
                 let l: Lk = (cl_of(e.class), e.idx as u64);
                 let held: Vec<Lk> = e.held_before.iter().map(|&(c, i)| (cl_of(c), i as u64)).collect();
                 let is_gc = self.is_gc(tid);
@@ -1150,7 +1159,12 @@ mod real {
                         // (4) mutual exclusion
                         let hs = self.holders.entry(l).or_default();
                         let conflict = if l.0 == Cl::Mgr && shared { hs.iter().any(|h| !h.1) } else { !hs.is_empty() };
-                        if conflict {
+                        // (lock ids carry no manager identity: while several managers are alive — the
+                        // `droprace` case creates a fresh one per iteration and the gc thread of the
+                        // previous one may still be on its way to its first wait — two DIFFERENT
+                        // mutexes share one id; mutual exclusion is judged in single-manager cases only.
+                        // Seen once as a false alarm in a dry run on a fresh sandbox.)
+                        if conflict && !self.multi_mgr {
                             ctx.fail("mutual-exclusion", &format!("thread {tid} acquires {}:{} ({}) while the log shows holders {:?}", cl_name(l.0), l.1, if shared { "shared" } else { "exclusive" }, hs));
                         }
                         hs.push((tid, shared));
@@ -1290,7 +1304,7 @@ mod real {
                     }
                     vl::Kind::WaitEnd => {
                         let hs = self.holders.entry(l).or_default();
-                        if !hs.is_empty() {
+                        if !hs.is_empty() && !self.multi_mgr {
                             ctx.fail("mutual-exclusion", &format!("thread {tid} re-acquires {}:{} after a condvar wait while the log shows holders {:?}", cl_name(l.0), l.1, hs));
                         }
                         hs.push((tid, false));
@@ -1361,6 +1375,11 @@ mod real {
             // wait a moment for a gc thread of the previous case, then forget everything
             std::thread::sleep(Duration::from_millis(2));
             let _ = vl::take_events();
+            for (id, name) in vl::thread_names() {
+                if name.starts_with("oxidd") {
+                    self.stale.insert(id as u64);
+                }
+            }
             self.rp = Replay::default();
             self.last_sub.clear();
             self.holders.clear();
@@ -1462,6 +1481,7 @@ mod real {
                     use std::sync::atomic::{AtomicU32, Ordering::SeqCst};
                     let n: u64 = w[1].parse().unwrap();
                     let mut lost = 0u64;
+                    self.multi_mgr = true;
                     for _ in 0..n {
                         let mref = <KBdd as LK>::new_manager(1024, 4, 1);
                         let m2 = mref.clone();
@@ -1488,6 +1508,8 @@ mod real {
                             lost += 1;
                         }
                     }
+                    self.multi_mgr = false;
+                    self.holders.clear();
                     ctx.add("droprace.iterations", n);
                     ctx.add("droprace.quit-lost", lost);
                     // Observation, not an oracle: when two threads drop the last two `ManagerRef`s at the
@@ -1581,6 +1603,8 @@ mod real {
             trace_out,
             last_sub: HashMap::new(),
             holders: HashMap::new(),
+            multi_mgr: false,
+            stale: Default::default(),
             cov: HashMap::new(),
             names: HashMap::new(),
             events_case: 0,
